@@ -16,6 +16,10 @@ H.edges.members(dtype=dict); no Trie, no EdgeView.maximal, no inclusion-exclusio
   edit_simpliciality = 1 - normalized edit distance, face_edit_simpliciality = 1 - normalized mean face edit distance
   all three scores in [0, 1] or NaN; equal to 1 (NaN only when nothing is eligible / nothing to count) on inputs that are
   downward closed above min_size.
+
+Besides fresh objects (kinds random / closed / exhaustive) the kind `sequence` asks the same questions repeatedly of one
+object that is edited in place in between (keys "<function>|same-object-after-edit|value-stale-or-wrong" and
+"<function>|second-call-without-edit|differs-from-first-call").
 """
 import math
 from itertools import combinations
@@ -29,6 +33,9 @@ RULE = (
     "case = one hypergraph without repeated or empty edges built through add_nodes_from/add_edge (kinds random / closed: <= 6 nodes, <= 8 edges, sizes 1-5, "
     "int / gapped-int / str labels, shapes random, nested, overlapping maximal faces, near-closed, closed above k; kind exhaustive: the idx-th hypergraph on 4 nodes "
     "in the enumeration of all families of <= 5 distinct non-empty edges) x 12 settings (min_size 1-3 x exclude_min_size x normalize) + the default-argument calls. "
+    "kind sequence: ONE network object is queried (all functions x all settings), queried again without an edit, then edited in place 2-4 times through the public API "
+    "(add_node_to_edge / remove_node_from_edge / remove_edge+add_edge(idx=same id) / double_edge_swap keep the node- and edge-ID sets; add/remove edge, add/remove node change them; "
+    "edits are chosen so that no repeated or empty edge arises) and queried again after every edit, each time against the enumeration over the CURRENT members(). "
     "one evaluation = one return value compared with brute-force enumeration. distinct_nontrivial = distinct (labels, family of member sets) with an edge of size >= 3"
 )
 ASSUMPTIONS = [
@@ -40,6 +47,8 @@ ASSUMPTIONS = [
     "when nothing is eligible (no eligible edge / no eligible maximal edge / no sub-edge present or missing) NaN or the degenerate value (distance 0, score 1) is accepted",
     "float comparisons with absolute tolerance 1e-12; unnormalized edit distance must be an exact integer value",
     "start states that fail the C01 structural invariant are discarded and counted",
+    "sequence kind: a function value may depend only on the current incidence structure, not on what was asked of the same object before (staleness of any memoised intermediate, e.g. of EdgeView.maximal, "
+    "is a wrong value); a sequence ends at the first monitor that fires or when an edit would leave the statement's input space",
 ]
 TECHNIQUE = "runtime monitoring: post-condition monitor against exhaustive subset enumeration"
 CASE_TIMEOUT = 60
@@ -69,8 +78,8 @@ def _exh_count(tier):
 
 def plan(tier):
     if tier == "quick":
-        return {"random": 4000, "closed": 960, "exhaustive": _exh_count("quick")}
-    return {"random": 240000, "closed": 57600, "exhaustive": _exh_count("thorough")}
+        return {"random": 3000, "closed": 720, "sequence": 500, "exhaustive": _exh_count("quick")}
+    return {"random": 240000, "closed": 57600, "sequence": 40000, "exhaustive": _exh_count("thorough")}
 
 
 def floors(tier):
@@ -86,6 +95,14 @@ def floors(tier):
     }
     scale = plan(tier)["random"] // 500
     f = {k: v * scale for k, v in f.items()}
+    seq = {  # minima per 500 sequences (about 0.65 x the smallest value observed over seeds 0..4)
+        "seq:second-call-evaluations": 700, "seq:evaluations-after-edit": 1000, "seq:members-changed-with-same-id-sets": 600,
+        "seq:maximal-edges-changed-with-same-id-sets": 180, "seq:id-sets-changed": 320,
+        "seq:edit:add_node_to_edge": 140, "seq:edit:remove_node_from_edge": 170, "seq:edit:replace_edge": 200, "seq:edit:double_edge_swap": 60,
+        "seq:edit:add_edge": 90, "seq:edit:remove_edge": 120, "seq:edit:add_node": 35, "seq:edit:remove_node": 65,
+    }
+    sscale = plan(tier)["sequence"] // 500
+    f.update({k: v * sscale for k, v in seq.items()})
     f["exhaustive:hypergraphs"] = _exh_count(tier)
     return f
 
@@ -183,15 +200,30 @@ def _close(a, b):
 # ---------------------------------------------------------------------------------
 # the monitor for one hypergraph
 # ---------------------------------------------------------------------------------
-def monitor_hypergraph(mon, H, how, min_sizes=MIN_SIZES):
+PHASE_CLAUSE = {"same-object-after-edit": "value-stale-or-wrong", "second-call-without-edit": "differs-from-first-call"}
+
+
+def monitor_hypergraph(mon, H, how, min_sizes=MIN_SIZES, phase=None):
+    """All five functions x all settings on the *current* state of H.  Returns the oracle; `.fired` tells whether a monitor fired.
+
+    phase (sequence kind): None for a fresh object; otherwise the trigger class of the key - the object has been queried
+    before and was edited in place since ("same-object-after-edit") or not ("second-call-without-edit").
+    """
     members = H.edges.members(dtype=dict)
     family = [frozenset(m) for m in members.values()]
     assert len(set(family)) == len(family) and all(family), "generator produced a repeated or empty edge"
     orc = Oracle(family)
     shown = {e: sorted(m) for e, m in members.items()}
 
+    orc.fired = 0
+
     def fire(fn, opt, clause, what):
-        mon.fail(f"{fn}|{opt}|{clause}", f"{fn}: {what}", f"import xgi; {how}\n# members={shown!r}")
+        orc.fired += 1
+        if phase:
+            key, what = f"{fn}|{phase}|{PHASE_CLAUSE[phase]}", f"[{phase}; {opt}: {clause}] {what}"
+        else:
+            key = f"{fn}|{opt}|{clause}"
+        mon.fail(key, f"{fn}: {what}", f"import xgi; {how}\n# current members={shown!r}")
         return False
 
     def check_distance(fn, opt, args, got, exact, lo_hi, nothing_eligible):
@@ -400,7 +432,7 @@ def _closed_family(rng, pool):
 
 
 def _build(rng, mon, pool, fam, nkind):
-    """Build H from a family of member sets through the public API; returns (H, how)."""
+    """Build H from a family of member sets through the public API; returns (H, how, explicit_ids, edge_id_pool)."""
     edges = [rng.sample(sorted(e, key=repr), len(e)) for e in fam]
     rng.shuffle(edges)
     explicit = rng.random() < 0.4
@@ -421,10 +453,156 @@ def _build(rng, mon, pool, fam, nkind):
             H.add_edge(e)
             steps.append(f"H.add_edge({e!r})")
     mon.note(f"in:labels:{nkind}")
-    return H, "H = xgi.Hypergraph(); " + "; ".join(steps)
+    return H, "H = xgi.Hypergraph(); " + "; ".join(steps), explicit, epool
+
+
+
+# ---------------------------------------------------------------------------------
+# sequences on ONE network object: evaluate, edit in place, evaluate again
+# ---------------------------------------------------------------------------------
+ID_PRESERVING = ("add_node_to_edge", "remove_node_from_edge", "replace_edge", "double_edge_swap")
+ID_CHANGING = ("add_edge", "remove_edge", "add_node", "remove_node")
+
+
+def _pre_ok(members):
+    vals = [frozenset(m) for m in members.values()]
+    return all(vals) and len(set(vals)) == len(vals)
+
+
+def _maximal_ids(members):
+    return frozenset(e for e, m in members.items() if not any(m < f for f in members.values()))
+
+
+def _propose_edit(rng, H, pool, explicit, epool):
+    """An in-place edit (through the public API) after which the input is still inside the statement's input space
+    (no repeated, no empty edge), chosen by simulating it on the member sets.  Returns (name, text, thunk) or None."""
+    mem = {e: frozenset(m) for e, m in H.edges.members(dtype=dict).items()}
+    nodes = list(H.nodes)
+    eids = list(mem)
+    for _ in range(12):
+        name = rng.choice(ID_PRESERVING) if rng.random() < 0.7 else rng.choice(ID_CHANGING)
+        pred = dict(mem)
+        if name == "add_node_to_edge" and eids:
+            e = rng.choice(eids)
+            cand = [n for n in nodes if n not in mem[e]]
+            if not cand:
+                continue
+            n = rng.choice(cand)
+            pred[e] = mem[e] | {n}
+            text, thunk = f"H.add_node_to_edge({e!r}, {n!r})", (lambda e=e, n=n: H.add_node_to_edge(e, n))
+        elif name == "remove_node_from_edge" and eids:
+            e = rng.choice(eids)
+            if len(mem[e]) < 2:
+                continue
+            n = rng.choice(sorted(mem[e], key=repr))
+            pred[e] = mem[e] - {n}
+            if rng.random() < 0.5:
+                text, thunk = f"H.remove_node_from_edge({e!r}, {n!r}, remove_empty=False)", (lambda e=e, n=n: H.remove_node_from_edge(e, n, remove_empty=False))
+            else:
+                text, thunk = f"H.remove_node_from_edge({e!r}, {n!r})", (lambda e=e, n=n: H.remove_node_from_edge(e, n))
+        elif name == "replace_edge" and eids:
+            e = rng.choice(eids)
+            new = ops.rand_members(rng, nodes, 1, min(5, len(nodes)))
+            del pred[e]
+            pred[e] = frozenset(new)
+
+            def thunk(e=e, new=new):
+                H.remove_edge(e)
+                H.add_edge(list(new), idx=e)
+            text = f"H.remove_edge({e!r}); H.add_edge({new!r}, idx={e!r})"
+        elif name == "double_edge_swap" and len(eids) >= 2:
+            e1, e2 = rng.sample(eids, 2)
+            c1, c2 = sorted(mem[e1] - mem[e2], key=repr), sorted(mem[e2] - mem[e1], key=repr)
+            if not c1 or not c2:
+                continue
+            n1, n2 = rng.choice(c1), rng.choice(c2)
+            pred[e1] = mem[e1] - {n1} | {n2}
+            pred[e2] = mem[e2] - {n2} | {n1}
+            text, thunk = f"H.double_edge_swap({n1!r}, {n2!r}, {e1!r}, {e2!r})", (lambda a=n1, b=n2, c=e1, d=e2: H.double_edge_swap(a, b, c, d))
+        elif name == "add_edge" and len(eids) < 9:
+            new = ops.rand_members(rng, pool, 1, min(5, len(pool)))
+            if explicit:
+                free = [x for x in epool if x not in mem]
+                if not free:
+                    continue
+                i = rng.choice(free)
+                pred[i] = frozenset(new)
+                text, thunk = f"H.add_edge({new!r}, idx={i!r})", (lambda new=new, i=i: H.add_edge(list(new), idx=i))
+            else:
+                pred["<auto>"] = frozenset(new)
+                text, thunk = f"H.add_edge({new!r})", (lambda new=new: H.add_edge(list(new)))
+        elif name == "remove_edge" and eids:
+            e = rng.choice(eids)
+            del pred[e]
+            text, thunk = f"H.remove_edge({e!r})", (lambda e=e: H.remove_edge(e))
+        elif name == "add_node":
+            cand = [n for n in pool if n not in nodes]
+            if not cand:
+                continue
+            n = rng.choice(cand)
+            text, thunk = f"H.add_node({n!r})", (lambda n=n: H.add_node(n))
+        elif name == "remove_node" and len(nodes) >= 2:
+            n = rng.choice(nodes)
+            pred = {e: m - {n} for e, m in mem.items() if m - {n}}
+            text, thunk = f"H.remove_node({n!r})", (lambda n=n: H.remove_node(n))
+        else:
+            continue
+        if _pre_ok(pred):
+            return name, text, thunk
+    return None
+
+
+def run_sequence(mon, rng):
+    nkind, pool = ops.node_pool(rng, k=rng.randint(4, 6))
+    shape = rng.choice(("random", "nested", "overlap", "near-closed"))
+    fam = _family(rng, pool, shape)
+    H, how, explicit, epool = _build(rng, mon, pool, fam, nkind)
+    if snap.inv(H):
+        mon.note("discarded-invalid-input")
+        return
+    # first query of a fresh object, then the same queries again without an edit
+    orc = monitor_hypergraph(mon, H, how)
+    if orc.fired:
+        return
+    mon.note("seq:second-call-evaluations")
+    if monitor_hypergraph(mon, H, how + "  # every function already called once on H", phase="second-call-without-edit").fired:
+        return
+    for step in range(rng.randint(2, 4)):
+        ed = _propose_edit(rng, H, pool, explicit, epool)
+        if ed is None:
+            mon.note("seq:no-admissible-edit")
+            break
+        name, text, thunk = ed
+        before = {e: frozenset(m) for e, m in H.edges.members(dtype=dict).items()}
+        ids_before = (frozenset(H.nodes), frozenset(before))
+        thunk()
+        how = how + f"\n<all five functions called on H>; {text}"
+        after = {e: frozenset(m) for e, m in H.edges.members(dtype=dict).items()}
+        if not _pre_ok(after) or snap.inv(H):
+            mon.note("seq:precondition-lost-after-edit")  # outside the statement's input space: stop here
+            return
+        mon.note(f"seq:edit:{name}")
+        same_ids = ids_before == (frozenset(H.nodes), frozenset(after))
+        if same_ids and after != before:
+            mon.note("seq:members-changed-with-same-id-sets")
+            if _maximal_ids(before) != _maximal_ids(after):
+                mon.note("seq:maximal-edges-changed-with-same-id-sets")
+        elif not same_ids:
+            mon.note("seq:id-sets-changed")
+        mon.note("seq:evaluations-after-edit")
+        if monitor_hypergraph(mon, H, how, phase="same-object-after-edit").fired:
+            return
+        if rng.random() < 0.4:
+            mon.note("seq:second-call-evaluations")
+            if monitor_hypergraph(mon, H, how + "\n<all five functions called on H>", phase="second-call-without-edit").fired:
+                return
+    mon.nontrivial(("seq", how))
+    mon.sample(how)
 
 
 def run_case(mon, kind, idx, rng):
+    if kind == "sequence":
+        return run_sequence(mon, rng)
     if kind == "exhaustive":
         fam_idx = _exh_family(_EXH_MAX_EDGES["thorough"])[idx]  # ordered by number of edges: the quick tier is a prefix
         labels = _EXH_LABELS[idx % 3]
@@ -446,7 +624,7 @@ def run_case(mon, kind, idx, rng):
             shape = rng.choice(SHAPES)
             fam = _family(rng, pool, shape)
             mon.note(f"shape:{shape}")
-        H, how = _build(rng, mon, pool, fam, nkind)
+        H, how, _, _ = _build(rng, mon, pool, fam, nkind)
     if snap.inv(H):
         mon.note("discarded-invalid-input")
         return
